@@ -107,6 +107,24 @@ CLAIMED["C08"] = dict(
     note="Independence of the solver's success from row order is mathematics, not code shape, and is not decided.",
     technique="static analysis: control-dependence / guard rules and sibling-summary comparison over rustc MIR")
 
+CLAIMED["C17"] = dict(
+    cat="other", ref="DESIGN.md §3 C17",
+    text="Lock discipline and the critical-section invariant keys(plans) == set(queue) and |plans| <= CAP, decided as shapes that hold on every "
+         "path and therefore under every interleaving of critical sections: cache fields are touched only by functions holding the lock; "
+         "no generation, solve or re-lock inside a section and the guard is released on every path; the inserting section re-checks "
+         "get(&k) == None, evaluates plans.len() >= CAPACITY on every path, removes exactly the popped key, pushes k exactly once; "
+         "keys and values are consistent (value cached under k is generate(k); the consumer asks for source_symbols.len(), range-checked).",
+    note="That two plans generated for the same k are equal (transparency of the value) rests on plan generation being data independent (C09).",
+    technique="static analysis: guard live-range (critical section) delimitation, call-graph reachability and path-predicate rules over rustc MIR")
+CLAIMED["C18"] = dict(
+    cat="other", ref="DESIGN.md §3 C18",
+    text="Decides the addressing structure: a repair packet is a function of (block, start+i) only (one loop over 0..packets, no loop-carried "
+         "state, ISI = start+i+K', ESI = K+start+i, fresh zeroed buffer, this block's W/J/P1 and intermediate symbols); source packet i carries "
+         "(SBN, i, symbol i); the packet list is per block in order: source packets then repair_packets(0, n); plans carry only (ops, count) "
+         "and a count mismatch is refused; Encoder::new regenerates its plan exactly when the count changes.",
+    note="Equality of Enc values for equal arguments is then functional determinism of safe Rust code without interior state; byte values are not decided.",
+    technique="static analysis: loop-emission summaries and term matching over rustc MIR")
+
 NOT_APPLICABLE = {
     "C03": "probability over random erasure patterns; no clause of it is visible in the shape of the code",
     "C06": "invertibility of 477 concrete matrices and plan-replay equality are run-time linear algebra; no sound structural proxy",
